@@ -8,6 +8,8 @@ CONSTANTS
   ConstVal = 5
   MinVars = 3
   MaxK = 2
+  SteadyT = 5
+  SolveOK <- MC_SolveThorough
   AsFound_SubstitutesVarWithIC = FALSE
 INVARIANT TypeOK
 INVARIANT C03_SameSolution
